@@ -1,7 +1,7 @@
 SPECIFICATION Spec
 CONSTANTS
-  MaxP = 7
-  MaxNum = 3
+  MaxP = 8
+  MaxNum = 4
   CurveP = {1,2,3}
   Seed = 1
 INVARIANT T_Elevate
